@@ -132,6 +132,25 @@ def lean_ok(s: str) -> bool:
     return not any(0xD800 <= ord(c) <= 0xDFFF for c in s)
 
 
+def off_us(v: datetime.datetime) -> int:
+    o = v.utcoffset()
+    return (o.days * 86400 + o.seconds) * 10**6 + o.microseconds
+
+
+def dt_fields(v: datetime.datetime) -> list[int]:
+    """an aware datetime as the model's `DT`: local fields + utcoffset in microseconds"""
+    return [v.year, v.month, v.day, v.hour, v.minute, v.second, v.microsecond, off_us(v)]
+
+
+def dt_csv(v: datetime.datetime) -> str:
+    return ",".join(map(str, dt_fields(v)))
+
+
+def subsecond_offset(v) -> bool:
+    """CPython's fromisoformat turns a non-zero UTC offset of less than a second into UTC (known finding)"""
+    return isinstance(v, datetime.datetime) and is_aware(v) and 0 < abs(off_us(v)) < 10**6
+
+
 def enc(v, pvmt_config) -> dict:
     if v is None:
         return {"t": "none"}
@@ -147,7 +166,7 @@ def enc(v, pvmt_config) -> dict:
     if isinstance(v, str):
         return {"t": "str", "v": str(v)}
     if isinstance(v, datetime.datetime):
-        return {"t": "aware" if is_aware(v) else "naive", "v": dt_id(v)}
+        return {"t": "aware", "f": dt_fields(v)} if is_aware(v) else {"t": "naive", "v": dt_id(v)}
     if isinstance(v, pvmt_config.SelectorRules):
         return {"t": "selector", "v": v.raw}
     return {"t": "other"}
@@ -316,6 +335,13 @@ def datetime_values(ctx: Ctx) -> list[tuple[str, object]]:
         d = datetime.datetime(rng.randint(2, 9998), rng.randint(1, 12), rng.randint(1, 28), rng.randint(0, 23), rng.randint(0, 59),
                               rng.randint(0, 59), rng.choice([0, rng.randint(0, 999999), rng.randint(0, 999) * 1000]))
         vals.append(("aware-random", d.replace(tzinfo=datetime.timezone(off))) if rng.random() < 0.8 else ("naive-random", d))
+    for us in [1, -1, 500000, -500000, 999999, -999999] + [rng.choice([-1, 1]) * rng.randint(1, 999999) for _ in range(ctx.pick(3, 30))]:
+        st = rng.choice(stamps)
+        vals.append(("aware-subsecond-offset", datetime.datetime(*st, tzinfo=datetime.timezone(td(microseconds=us)))))
+    for secs in [1, -1, 59, -59, 60, 3599, 86399, -86399]:  # whole seconds next to the quirk: these must round-trip
+        vals.append(("aware-offset-seconds", datetime.datetime(*rng.choice(stamps), tzinfo=datetime.timezone(td(seconds=secs)))))
+    vals.append(("aware-offset-seconds", datetime.datetime(2000, 1, 1, tzinfo=datetime.timezone(td(seconds=1, microseconds=5)))))
+    vals.append(("aware-offset-seconds", datetime.datetime(2000, 1, 1, tzinfo=datetime.timezone(-td(seconds=1, microseconds=5)))))
     vals += [("naive-year1", datetime.datetime(1, 1, 1)), ("wrongtype", "2020-01-01T00:00:00"), ("wrongtype", datetime.date(2020, 1, 1)), ("wrongtype", 5)]
     return vals
 
@@ -451,6 +477,8 @@ def run(ctx: Ctx) -> Outcome:
                 out.find("law|float-str-roundtrip", f"float(str({x!r})) != {x!r}", {"kind": "law-float", "repr": repr(x)})
 
     def law_dt(t: datetime.datetime):
+        if subsecond_offset(t):
+            return
         s = t.isoformat("T", "milliseconds")
         laws["iso_rt"] += 1
         back = datetime.datetime.fromisoformat(s)
@@ -604,7 +632,7 @@ def run(ctx: Ctx) -> Outcome:
         replay = {"kind": "pod", "cls": r["cls"], "pyname": name, "init": init, "label": label, "value": enc_replay(v), "del": use_del}
 
         # ---------------- monitor (independent of the model)
-        sig_cls = f"{kind}:{label}"
+        sig_cls = f"{kind}:{label}" if not subsecond_offset(v) else "datetime:aware-subsecond-offset"
         if res[0] == "exc":
             stats["rejected"] += 1
             if now != snap:
@@ -702,30 +730,23 @@ def run(ctx: Ctx) -> Outcome:
                     fp.append([k, None])
             oracle["fparse"] = fp
         if kind == "datetime":
-            ts: dict[str, datetime.datetime] = {}
-            if isinstance(v, datetime.datetime):
-                if is_aware(v):
-                    ts[dt_id(v)] = v
-                else:
-                    try:
-                        lv = v.astimezone()
-                        oracle["localize"] = [[dt_id(v), dt_id(lv)]]
-                        ts[dt_id(lv)] = lv
-                    except (ValueError, OverflowError, OSError):
-                        oracle["localize"] = [[dt_id(v), None]]
+            # isoformat / fromisoformat on the shapes the code writes / truncation are computed by the model itself;
+            # recorded from CPython: astimezone() of a naive value, and fromisoformat for every stored string (the model
+            # consults it only for shapes it calls foreign)
+            if isinstance(v, datetime.datetime) and not is_aware(v):
+                try:
+                    oracle["localize"] = [[dt_id(v), dt_csv(v.astimezone())]]
+                except (ValueError, OverflowError, OSError):
+                    oracle["localize"] = [[dt_id(v), None]]
             fi = []
-            for dstr in datas + [re_set.sub("", t.isoformat("T", "milliseconds")) for t in ts.values()]:
+            for dstr in datas:
                 k = re_get.sub(":", dstr)
                 try:
                     b = datetime.datetime.fromisoformat(k)
-                    fi.append([k, ("A" if is_aware(b) else "N") + dt_id(b)])
-                    if is_aware(b):
-                        ts.setdefault(dt_id(b), b)
+                    fi.append([k, ("A" + dt_csv(b)) if is_aware(b) else ("N" + dt_id(b))])
                 except ValueError:
                     fi.append([k, None])
             oracle["fromiso"] = fi
-            oracle["iso"] = [[k, t.isoformat("T", "milliseconds")] for k, t in ts.items()]
-            oracle["trunc"] = [[k, dt_id(t.replace(microsecond=t.microsecond // 1000 * 1000))] for k, t in ts.items()]
 
         def cmp(ans, before=before, res=res, after=after, v=v, valid=valid, want=want):
             m = ans.get("ok")
@@ -744,8 +765,12 @@ def run(ctx: Ctx) -> Outcome:
             mv = {"before": m["before"], "set": m["set"], "after": m["after"]}
             if iv != mv:
                 out.disagree(f"pod.{kind}", case, iv, mv)
-            if m["valid"] != bool(valid) and r["writable"]:
+            if m["valid"] != bool(valid) and r["writable"] and not subsecond_offset(v):
+                # (sub-second UTC offsets are outside the theorem's domain — known finding; the monitor judges them)
                 out.disagree("valid-domain", case, bool(valid), m["valid"])
+            for w in ("isoBefore", "isoAfter"):
+                if m.get(w):
+                    out.hit(f"model.datetime.parse.{m[w]}")
             if m["valid"] and (r["writable"] or not present):
                 # the theorem's instance, observed on the implementation
                 if res[0] == "ok" and after and after[0] == "ok":
@@ -961,28 +986,102 @@ def lt_lstrip(v: str) -> str:
     return v[m.end():] if m else v
 
 
-def rand_linked_text(rng, targets: list[tuple[str, str]], dead_ok: bool) -> tuple[str, bool]:
-    """A linked-text value in the form the getter returns: an arbitrary interleaving of plain-text runs (XML-legal
-    characters incl. markup-significant ones and entity look-alikes, HTML-escaped as `html.escape` does) and links to
-    live targets (link text = the target's current name) or, optionally, dead ones. Text may precede the first link,
-    sit between two links (possibly empty) and follow the last one. Returns (value, has_dead_link)."""
-    import html
+MALFORMED_IDS = ["a b c", "", "x#y#z", 'q"uote', "two  spaces#id", "#", "id with space"]
+
+
+def rand_lt(rng, targets: list[tuple[str, str]], dead_ok: bool, extra: dict | None = None) -> dict:
+    """A linked-text value as tokens: leading text, then links each followed by its tail text. Text runs are arbitrary
+    XML-legal characters incl. markup-significant ones and entity look-alikes; links point to live targets (link text =
+    the target's current name, sometimes the `#uuid` spelling) or, if `dead_ok`, to dead ones: a well-formed id that
+    does not exist, an id `follow_link` calls malformed, a target without a name (`extra`), a stale link text.
+    -> {"lead": str, "links": [{"id", "name", "tail", "kind"}]}"""
+    extra = extra or {}
 
     def run() -> str:
         k = rng.choice([0, 1, 1, 2, 3])
         raw = "".join(rng.choice(LT_TEXT_PARTS) if rng.random() < 0.7 else rand_xml_string(rng, 1) for _ in range(k))
-        return html.escape(raw.replace("\r", " "))
+        return raw.replace("\r", " ")
 
-    out, has_dead = [run()], False
+    links = []
     for _ in range(rng.choice([0, 1, 1, 2, 3])):
-        if dead_ok and rng.random() < 0.2:
-            out.append(f'<a href="hlink://{DEAD_UUID}">gone</a>')
-            has_dead = True
+        r = rng.random()
+        if dead_ok and r < 0.12:
+            links.append({"id": DEAD_UUID, "name": "gone", "kind": "dead"})
+        elif dead_ok and r < 0.18:
+            links.append({"id": rng.choice(MALFORMED_IDS), "name": "odd", "kind": "malformed"})
+        elif dead_ok and r < 0.24 and extra.get("unnamed"):
+            u = rng.choice(extra["unnamed"])
+            links.append({"id": u, "name": f"<unnamed element {u}>", "kind": "unnamed"})
+        elif dead_ok and r < 0.28:
+            uuid, name = rng.choice(targets)
+            links.append({"id": uuid, "name": name + " (old name)", "kind": "stale"})
         else:
             uuid, name = rng.choice(targets)
-            out.append(f'<a href="hlink://{html.escape(uuid)}">{html.escape(name)}</a>')
-        out.append(run())
-    return "".join(out), has_dead
+            links.append({"id": ("#" + uuid) if dead_ok and rng.random() < 0.1 else uuid, "name": name, "kind": "live"})
+        links[-1]["tail"] = run()
+    return {"lead": run(), "links": links}
+
+
+def render_value(lt: dict) -> str:
+    """the HTML form the getter returns (the harness's own rendering; compared with the model's `renderValue`)"""
+    import html
+
+    return html.escape(lt["lead"]) + "".join(
+        f'<a href="hlink://{html.escape(l["id"])}">{html.escape(l["name"])}</a>{html.escape(l["tail"])}' for l in lt["links"])
+
+
+def rand_linked_text(rng, targets: list[tuple[str, str]], dead_ok: bool) -> tuple[str, bool]:
+    """A linked-text value in the form the getter returns: an arbitrary interleaving of plain-text runs and links —
+    text before the first, between two (possibly empty) and after the last link. Returns (value, has_dead_link)."""
+    lt = rand_lt(rng, targets, dead_ok)
+    return render_value(lt), any(l["kind"] != "live" for l in lt["links"])
+
+
+def frags_json(s: str):
+    """what lxml.html.fragments_fromstring(s) returns, as the model's `Frags`"""
+    import lxml.html
+
+    def node(el):
+        return {"tag": el.tag if isinstance(el.tag, str) else "<!>", "href": el.get("href") if isinstance(el.tag, str) else None,
+                "text": el.text or "", "kids": [node(c) for c in el], "tail": el.tail or ""}
+
+    fr = lxml.html.fragments_fromstring(s)
+    lead = fr[0] if fr and isinstance(fr[0], str) else None
+    return {"lead": lead, "nodes": [node(e) for e in fr if not isinstance(e, str)]}
+
+
+def frags_hrefs(fj: dict) -> list[str]:
+    out = []
+
+    def walk(n):
+        if n["tag"] == "a" and n["href"] is not None:
+            out.append(n["href"])
+        for c in n["kids"]:
+            walk(c)
+
+    for n in fj["nodes"]:
+        walk(n)
+    return out
+
+
+def spec_answer(out, ans, impl_res, final, kids, steps):
+    """compare one answer of the driver's `spec` op with what the implementation did"""
+    m = ans.get("ok")
+    iv = {"results": impl_res, "kids": final}
+    if m is None or {"results": m.get("results"), "kids": m.get("kids")} != iv:
+        out.disagree("spec", {"kids": kids, "steps": steps}, iv, m if m is not None else ans)
+        return
+    out.hit("spec.ops", len(steps))
+    for st in steps:
+        out.hit(f"spec.op.{st['o']}")
+    # linked-text strings the model's own codec handled vs. those answered by the oracle tables (foreign to the sub-language)
+    for k in ("escModelled", "escForeign", "unescModelled", "unescForeign"):
+        if m.get(k):
+            out.hit(f"spec.linked.{k}", m[k])
+    if m.get("wellPaired"):
+        out.hit("spec.wellPaired")
+        if m.get("dictSame") is not True:  # theorem specRun_refines, observed through the driver
+            out.disagree("spec.dict", {"kids": kids, "steps": steps}, "same results as the reference dict", m.get("dictSame"))
 
 
 def spec_part(ctx, out, ask, capellambse, helpers, _descriptors, etree, xml_legal):
@@ -1000,6 +1099,27 @@ def spec_part(ctx, out, ask, capellambse, helpers, _descriptors, etree, xml_lega
 
     def unesc(s):
         return str(helpers.unescape_linked_text(loader, s))
+
+    def classify(href: str) -> list:
+        """`loader[href]` + `target.get("name")` as the model's `Target`"""
+        try:
+            t = loader[href]
+        except KeyError:
+            return [href, "missing"]
+        except (ValueError, TypeError):
+            return [href, "malformed"]
+        nm = t.get("name")
+        return [href, "named", nm] if nm else [href, "unnamed"]
+
+    def look_table(raws) -> list:
+        hrefs: dict[str, None] = {}
+        for raw in raws:
+            try:
+                for h in frags_hrefs(frags_json(raw)):
+                    hrefs.setdefault(h, None)
+            except Exception:
+                pass
+        return [classify(h) for h in hrefs if lean_ok(h)]
 
     keys = ["capella:linkedText", "LinkedText", "python", "", "other lang"]
     plain_vals = ["", "x", "a < b && c", "<b>not html here</b>", "  spaced  ", "é\U0001F600", "\x00", "multi\nline"]
@@ -1034,8 +1154,12 @@ def spec_part(ctx, out, ask, capellambse, helpers, _descriptors, etree, xml_lega
         oracle_esc, oracle_unesc = {}, {}
         balanced = len([k for k in kids if k[0] == "bodies"]) == len([k for k in kids if k[0] == "languages"])
         nodup = len({k[1] for k in kids if k[0] == "languages"}) == len([k for k in kids if k[0] == "languages"])
-        for _ in range(rng.randint(1, 6)):
-            o = rng.choice(["get", "set", "set", "del", "keys"])
+        # reference semantics for direction "behaves like a Python dict": a real dict, keys aliased, run next to the
+        # implementation whenever the initial children pair up, every language has a text and the keys are distinct
+        wellpaired = balanced and nodup and all(kd[1] is not None for kd in kids if kd[0] == "languages")
+        ref = dict(zip([kd[1] for kd in kids if kd[0] == "languages"], [kd[1] or "" for kd in kids if kd[0] == "bodies"])) if wellpaired else None
+        for _ in range(rng.choice([1, 2, 3, 4, 5, 6, 12, 25]) if ctx.thorough or rng.random() < 0.3 else rng.randint(1, 6)):
+            o = rng.choice(["get", "set", "set", "del", "keys", "len"])
             k = rng.choice(keys)
             linked = k in ("capella:linkedText", "LinkedText")
             before_kids = kids_of(elm)
@@ -1048,6 +1172,9 @@ def spec_part(ctx, out, ask, capellambse, helpers, _descriptors, etree, xml_lega
             elif o == "keys":
                 steps.append({"o": "keys"})
                 impl_res.append({"ok": list(spec)})
+            elif o == "len":
+                steps.append({"o": "len"})
+                impl_res.append({"ok": len(spec)})
             elif o == "del":
                 steps.append({"o": "del", "k": k})
                 try:
@@ -1100,6 +1227,36 @@ def spec_part(ctx, out, ask, capellambse, helpers, _descriptors, etree, xml_lega
                                 out.find("spec.linkedtext|dead-link-reads-as-placeholder", f"spec[{k!r}] = {v!r} (dead link) reads back {got!r}; "
                                          "re-assigning what was read replaces the link by literal text", {"kind": "spec", "kids": kids, "steps": steps})
                             out.hit(f"spec.linked.{cls}")
+            if ref is not None:
+                ak = "capella:linkedText" if k == "LinkedText" else k
+                last = impl_res[-1]
+                bad = None
+                if o == "keys" and last != {"ok": list(ref)}:
+                    bad = f"keys {last} vs dict {list(ref)}"
+                elif o == "len" and last != {"ok": len(ref)}:
+                    bad = f"len {last} vs dict {len(ref)}"
+                elif o == "get":
+                    if ak not in ref and last != {"exc": "KeyError"}:
+                        bad = f"get of an absent key gives {last}"
+                    elif ak in ref and not linked and last != {"ok": ref[ak]}:
+                        bad = f"get {last} vs dict {ref[ak]!r}"
+                elif o == "del":
+                    if (ak in ref) != (last == {"ok": None}):
+                        bad = f"del {last} but key present in dict: {ak in ref}"
+                    ref.pop(ak, None)
+                elif o == "set" and last == {"ok": None}:
+                    ref[ak] = next((c.text or "" for i, c in enumerate(elm.iterchildren("bodies")) if i == list(ref).index(ak)), None) if ak in ref else None
+                    if ref[ak] is None:  # a new key: its body is the last one
+                        ref[ak] = list(elm.iterchildren("bodies"))[-1].text or ""
+                    if not linked and ref[ak] != steps[-1]["v"]:
+                        bad = f"set stored {ref[ak]!r}"
+                if bad is None and list(spec) != list(ref):
+                    bad = f"key order {list(spec)} vs dict {list(ref)}"
+                if bad:
+                    out.find("spec.mapping|differs-from-dict", f"after {steps}: {bad}", {"kind": "spec", "kids": kids, "steps": list(steps)})
+                    ref = None
+                else:
+                    out.hit("spec.dict-reference.step")
             for c in elm:
                 if c.tag == "bodies":
                     oracle_unesc[c.text or ""] = unesc(c.text or "")
@@ -1110,77 +1267,191 @@ def spec_part(ctx, out, ask, capellambse, helpers, _descriptors, etree, xml_lega
             continue
 
         def cmp(ans, impl_res=impl_res, final=final, kids=kids, steps=steps):
-            m = ans.get("ok")
-            iv = {"results": impl_res, "kids": final}
-            if m != iv:
-                out.disagree("spec", {"kids": kids, "steps": steps}, iv, m if m is not None else ans)
-            out.hit("spec.ops", len(steps))
+            spec_answer(out, ans, impl_res, final, kids, steps)
 
         ask({"op": "spec", "kids": kids, "steps": steps,
-             "oracle": {"esc": [[k, v] for k, v in oracle_esc.items()], "unesc": [[k, v] for k, v in oracle_unesc.items()]}}, cmp)
+             "oracle": {"esc": [[k, v] for k, v in oracle_esc.items()], "unesc": [[k, v] for k, v in oracle_unesc.items()],
+                        "look": look_table(oracle_unesc)}}, cmp)
 
-    # ---- linked text as an arbitrary interleaving of text runs and links: get(set(v)) == v, and what was read can be
-    #      assigned back without changing the XML or the value
+    # ---- linked text as an arbitrary interleaving of text runs and links (token level): get(set(v)) == v, what was read
+    #      can be assigned back without changing the XML or the value; the same tokens go to the model (`lt.value`): its
+    #      rendering, its stored form and its view are compared with what the code does, and where the model says
+    #      "all links live, text kept" the implementation must return the value itself (theorem linked_text_roundtrip)
+    import html as _html
+
     targets = [(o.uuid, o.name) for o in live if o.name]
+    unnamed = []
+    for tree in loader.trees.values():
+        for el in tree.root.iter():
+            if el.get("id") and not el.get("name") and len(unnamed) < 4 and isinstance(el.tag, str) and classify(el.get("id"))[1] == "unnamed":
+                unnamed.append(el.get("id"))
     fixed = []
     for u, nm in targets[:2]:
-        import html as _html
-        link = f'<a href="hlink://{u}">{_html.escape(nm)}</a>'
-        fixed += [f"{link} &lt; 5 &amp; rising", f"{link}&lt;b&gt;not bold&lt;/b&gt;", f"{link} &amp;amp; {link} &gt; 0", f"a &lt; b, see {link}", f"{link}{link}",
-                  f"&quot;{link}&#x27; {link} end", f"{link}\n&amp;"]
-    cases = [(v, False) for v in fixed] + [rand_linked_text(rng, targets, True) for _ in range(ctx.pick(400, 5000))]
-    for idx, (v, has_dead) in enumerate(cases):
+        L = {"id": u, "name": nm, "kind": "live"}
+        fixed += [{"lead": "", "links": [dict(L, tail=" < 5 & rising")]}, {"lead": "", "links": [dict(L, tail="<b>not bold</b>")]},
+                  {"lead": "", "links": [dict(L, tail=" &amp; "), dict(L, tail=" > 0")]}, {"lead": "a < b, see ", "links": [dict(L, tail="")]},
+                  {"lead": "", "links": [dict(L, tail=""), dict(L, tail="")]}, {"lead": '"', "links": [dict(L, tail="' "), dict(L, tail=" end")]},
+                  {"lead": "", "links": [dict(L, tail="\n&")]}, {"lead": " \t", "links": [dict(L, tail=" ")]}, {"lead": "\xa0", "links": []},
+                  {"lead": "", "links": [dict(L, id="#" + u, tail="")]}]
+    for bad in MALFORMED_IDS:
+        fixed.append({"lead": "see ", "links": [{"id": bad, "name": "odd", "kind": "malformed", "tail": "."}]})
+    cases = fixed + [rand_lt(rng, targets, True, {"unnamed": unnamed}) for _ in range(ctx.pick(400, 5000))]
+    lt_dist: dict[str, int] = {}
+    for idx, lt in enumerate(cases):
+        v = render_value(lt)
+        kinds = {l["kind"] for l in lt["links"]}
+        has_dead = bool(kinds - {"live"})
         key = rng.choice(["LinkedText", "capella:linkedText"])
         kids = [["bodies", "old"], ["languages", "capella:linkedText"]] if rng.random() < 0.7 else []
         elm = mk(kids)
         spec = _descriptors._Specification(model, elm)
         rp = {"kind": "spec", "kids": kids, "steps": [{"o": "set", "k": key, "v": v}]}
-        cls = "dead-link" if has_dead else "interleaved"
+        cls = ("malformed-link-id" if "malformed" in kinds else "dead-link" if "dead" in kinds else "stale-link-text" if "stale" in kinds
+               else "unnamed-target" if "unnamed" in kinds else "interleaved")
+        lt_dist[cls] = lt_dist.get(cls, 0) + 1
+        lt_dist["links:%d" % len(lt["links"])] = lt_dist.get("links:%d" % len(lt["links"]), 0) + 1
         out.case(("spec-lt", v), {"linked_text": v[:120]} if idx < 2 else None, nontrivial=bool(v))
         out.hit(f"spec.linked.{cls}")
+        raw = got = raw2 = got2 = None
         try:
             spec[key] = v
-            raw = next(elm.iterchildren("bodies")).text
-            got = str(spec[key])
+            raw = next(elm.iterchildren("bodies")).text or ""
         except Exception as e:
             out.find(f"spec.linkedtext|valid-value-fails|{cls}", f"spec[{key!r}] = {v!r}: {type(e).__name__}: {e}", rp)
-            continue
-        if got != v:
-            if has_dead:
+        if raw is not None:
+            try:
+                got = str(spec[key])
+            except Exception as e:
+                out.find(f"spec.linkedtext|written-value-unreadable|{cls}", f"spec[{key!r}] = {v!r} is accepted and stored as {raw!r}; reading it back "
+                         f"raises {type(e).__name__}: {e}", dict(rp, expect="readable"))
+        if got is not None and got != v:
+            if cls in ("dead-link", "malformed-link-id"):
                 out.find("spec.linkedtext|dead-link-reads-as-placeholder", f"spec[{key!r}] = {v!r} (dead link) reads back {got!r}; "
                          "re-assigning what was read replaces the link by literal text", rp)
+            elif cls == "stale-link-text":
+                out.hit("spec.linked.stale-reads-current-name")  # reading taken: live links show the target's current name
             elif got == lt_lstrip(v):
                 out.find("spec.linkedtext|whitespace-only-leading-text-dropped", f"spec[{key!r}] = {v!r} read back {got!r}: a whitespace-only text run "
                          "before the first link (or a whitespace-only value) is dropped by lxml.html.fragments_fromstring", rp)
             else:
                 out.find("spec.linkedtext|canonical-read-back-differs", f"spec[{key!r}] = {v!r} read back {got!r} (XML body {raw!r})", rp)
         # what was read must be assignable again and read the same (and, without dead links, leave the XML unchanged)
-        try:
-            spec[key] = got
-            raw2 = next(elm.iterchildren("bodies")).text
-            got2 = str(spec[key])
-        except Exception as e:
-            out.find(f"spec.linkedtext|read-value-not-reassignable|{cls}", f"spec[{key!r}] = {v!r} reads {got!r}; assigning that back raises "
-                     f"{type(e).__name__}: {e}", rp)
-            continue
-        if got2 != got or (not has_dead and raw2 != raw):
-            out.find(f"spec.linkedtext|read-value-not-reassignable|{cls}", f"spec[{key!r}] = {v!r} reads {got!r}; assigning that back gives XML "
-                     f"{raw2!r} (was {raw!r}) and reads {got2!r}", rp)
-        out.traces_validated += 1
-        if lean_ok(v) and lean_ok(got):
+        if got is not None:
+            try:
+                spec[key] = got
+                raw2 = next(elm.iterchildren("bodies")).text or ""
+                got2 = str(spec[key])
+            except Exception as e:
+                out.find(f"spec.linkedtext|read-value-not-reassignable|{cls}", f"spec[{key!r}] = {v!r} reads {got!r}; assigning that back raises "
+                         f"{type(e).__name__}: {e}", rp)
+            else:
+                if got2 != got or (cls in ("interleaved", "unnamed-target", "stale-link-text") and raw2 != raw):
+                    out.find(f"spec.linkedtext|read-value-not-reassignable|{cls}", f"spec[{key!r}] = {v!r} reads {got!r}; assigning that back gives XML "
+                             f"{raw2!r} (was {raw!r}) and reads {got2!r}", rp)
+                out.traces_validated += 1
+        if got2 is not None and lean_ok(v) and lean_ok(got):
             steps = [{"o": "set", "k": key, "v": v}, {"o": "get", "k": key}, {"o": "set", "k": key, "v": got}, {"o": "get", "k": key}]
             impl_res = [{"ok": None}, {"ok": got}, {"ok": None}, {"ok": got2}]
             final = kids_of(elm)
 
             def cmp2(ans, impl_res=impl_res, final=final, kids=kids, steps=steps):
-                m = ans.get("ok")
-                iv = {"results": impl_res, "kids": final}
-                if m != iv:
-                    out.disagree("spec", {"kids": kids, "steps": steps}, iv, m if m is not None else ans)
-                out.hit("spec.ops", len(steps))
+                spec_answer(out, ans, impl_res, final, kids, steps)
 
             ask({"op": "spec", "kids": kids, "steps": steps,
-                 "oracle": {"esc": [[x, esc(x)] for x in {v, got}], "unesc": [[x, unesc(x)] for x in {raw or "", raw2 or "", "old"}]}}, cmp2)
+                 "oracle": {"esc": [[x, esc(x)] for x in {v, got}], "unesc": [[x, unesc(x)] for x in {raw or "", raw2 or "", "old"}],
+                            "look": look_table([raw or "", raw2 or ""])}}, cmp2)
+        # the same tokens through the model's codec
+        if lean_ok(v):
+            look = [classify(l["id"]) for l in lt["links"]]
+
+            def cmp3(ans, v=v, raw=raw, got=got, lt=lt, cls=cls):
+                m = ans.get("ok")
+                case = {"tokens": lt}
+                if m is None:
+                    out.disagree("lt.value", case, "?", ans)
+                    return
+                if m["value"] != v:
+                    out.disagree("lt.render", case, v, m["value"])
+                if not m["ok"]:
+                    out.hit("lt.value.outside-domain")  # (a character the codec does not keep: CR) judged by the monitor only
+                    return
+                if raw is not None and m["raw"] != raw:
+                    out.disagree("lt.escape", case, raw, m["raw"])
+                rb = m["readBack"]
+                impl_rb = {"ok": got} if got is not None else {"exc": "ValueError"}
+                if raw is not None and rb != impl_rb:
+                    out.disagree("lt.readback", case, impl_rb, rb)
+                if got is not None and m["view"] != got:
+                    out.disagree("lt.view", case, got, m["view"])
+                if m["live"] and m["leadKept"]:
+                    # hypothesis of theorem linked_text_roundtrip holds: the implementation must return the value itself
+                    if got == v:
+                        out.traces_validated += 1
+                    else:
+                        out.disagree("theorem-instance.linkedtext", case, got, v)
+                    out.hit("lt.value.live")
+                else:
+                    out.hit("lt.value.view-only")
+
+            ask({"op": "lt.value", "lead": lt["lead"], "links": [[l["id"], l["name"], l["tail"]] for l in lt["links"]], "look": look}, cmp3)
+    out.extra["linked_text_distribution"] = lt_dist
+
+    # ---- the two walks on what libxml2 parses (Frags level: any HTML), and the model's own parser on its sub-language
+    soup = (lt_vals + [render_value(c) for c in cases[:ctx.pick(150, 1500)]] + HTML_FRAGMENTS
+            + [rand_html(rng) for _ in range(ctx.pick(150, 2000))] + [rand_plain(rng) for _ in range(ctx.pick(100, 1000))]
+            + ['<a href="hlink://x"><b>n</b></a>', '<a>no href</a>t', '<a href="hlink://u">x</a><!-- c -->y', '<p><a href="u"/>in p</p>tail',
+               '<a href="u"/>', '<a href=""/>x', "<a href='u'/>x", '<a href="u" class="c"/>x', '<A HREF="u"/>x', '<a  href="u"/>x', '<a href="u" />x',
+               '<a href="u"></a>x', '<a href="u">t</a >x', 'x<a href="u"/>y<a href="v">w</a>z', 'a\rb', 'a\r\nb<a href="u"/>\r', '&#x27;&quot;&gt;&lt;&amp;',
+               '&apos;', '&#39;', '&AMP;', 'a &amp b', '<a href="u&amp;v"/>', '<a href="u&ampv"/>', '<a href="u\tv\nw"/>', '<a href="u"/> \n\t ', ' \n<a href="u"/>',
+               '　x', '　', '<a href="u>v"/>', "<a href=\"u'v\"/>", '<a href="u">a&gt;b</a>', '<a href="u">a<b</a>', '<a href="u">a</a', '<a href="u"/'])
+    raws_seen = [r for r in (esc(x) for x in soup[:400]) if r]
+    soup += raws_seen
+    fr_dist = {"modelled": 0, "foreign": 0, "parser-error": 0}
+    for sx in soup:
+        if not lean_ok(sx) or not xml_legal(sx):
+            continue
+        try:
+            fj = frags_json(sx)
+        except Exception:
+            fr_dist["parser-error"] += 1  # lxml refuses the document (empty, …): both functions raise the same; nothing to model
+            continue
+        if not all(lean_ok(x) for x in frags_hrefs(fj)):
+            continue
+        try:
+            ie = {"ok": str(helpers.escape_linked_text(loader, sx))}
+        except ValueError:
+            ie = {"exc": "ValueError"}
+        try:
+            iu = {"ok": str(helpers.unescape_linked_text(loader, sx))}
+        except (ValueError, TypeError):
+            iu = {"exc": "ValueError"}
+        look = [classify(h) for h in dict.fromkeys(frags_hrefs(fj))]
+        out.case(("lt-frags", sx), nontrivial=bool(fj["nodes"]))
+
+        def cmpf(stream, want):
+            def h(ans, want=want, sx=sx):
+                if ans.get("ok") != want:
+                    out.disagree(stream, {"s": sx}, want, ans.get("ok", ans))
+                out.hit(stream + ("." + next(iter(want)) if isinstance(want, dict) else ""))
+            return h
+
+        ask({"op": "lt.escape.frags", "frags": fj}, cmpf("lt.escape.frags", ie))
+        ask({"op": "lt.unescape.frags", "frags": fj, "look": look}, cmpf("lt.unescape.frags", iu))
+
+        def cmpp(ans, fj=fj, sx=sx):
+            m = ans.get("ok") if "ok" in ans else ans
+            if m is None:
+                fr_dist["foreign"] += 1
+                out.hit("lt.parse.foreign")
+                return
+            fr_dist["modelled"] += 1
+            if m != fj:
+                out.disagree("lt.parse", {"s": sx}, fj, m)
+            out.hit("lt.parse.modelled")
+
+        ask({"op": "lt.parse", "s": sx}, cmpp)
+    out.extra["linked_text_parser_distribution"] = fr_dist
+
 
 
 # ---------------------------------------------------------------- live model, save and reload
@@ -1539,6 +1810,11 @@ def replay(ctx: Ctx, case: dict):
             got = getattr(o, case["pyname"])
         except Exception as e:
             return f"{case['cls']}.{case['pyname']} = {v!r} wrote {o._element.get(desc.attribute)!r}; reading back raises {type(e).__name__}: {e}"
+        if isinstance(v, datetime.datetime) and isinstance(desc, _pods.DatetimePOD):
+            w = v if is_aware(v) else v.astimezone()
+            w = w.replace(microsecond=w.microsecond // 1000 * 1000)
+            if not isinstance(got, datetime.datetime) or got != w or got.utcoffset() != w.utcoffset():
+                return f"{case['cls']}.{case['pyname']} = {v!r} wrote {o._element.get(desc.attribute)!r}, read back {got!r}, expected {w!r}"
         if case["value"]["t"] in ("float", "int", "bool", "str", "member", "selector") and v is not None:
             want = v
             if isinstance(desc, _pods.EnumPOD) and isinstance(v, str):
@@ -1581,8 +1857,11 @@ def replay(ctx: Ctx, case: dict):
             except (KeyError, ValueError):
                 last = None
         if last and last["o"] == "set":
-            got = str(spec[last["k"]])
-            if got != last["v"]:
+            try:
+                got = str(spec[last["k"]])
+            except Exception as e:
+                return f"spec[{last['k']!r}] = {last['v']!r} is accepted; reading it back raises {type(e).__name__}: {e}"
+            if got != last["v"] and case.get("expect") != "readable":
                 return f"spec[{last['k']!r}] = {last['v']!r} reads back {got!r}"
         if last and last["o"] == "del" and last["k"] in list(spec):
             return f"del spec[{last['k']!r}] left the key behind"
@@ -1612,6 +1891,9 @@ def dec(e: dict, desc, pvmt_config):
 
         mod, _, qn = e["cls"].rpartition(".")
         return getattr(importlib.import_module(mod), qn)[e["name"]]
+    if t == "aware" and "f" in e:
+        y, mo, d, h, mi, sc, us, off = e["f"]
+        return datetime.datetime(y, mo, d, h, mi, sc, us, tzinfo=datetime.timezone(datetime.timedelta(microseconds=off)))
     if t in ("aware", "naive"):
         return datetime.datetime.fromisoformat(e["v"])
     if t == "selector":
